@@ -31,7 +31,8 @@ LEVEL_TEXT = ("Theorems (Props/C05.v) for ALL shapes >= 2 and all configurations
               "one cycle is a total function of the field (never stuck, frames balanced, source untouched) and, "
               "under the contracts proved per kernel in C02-C04 (smoothers fix exact solutions; restriction, "
               "prolongation, residual map zero to zero), one cycle -- and any number of cycles with changing "
-              "directions -- returns an exact solution of the fine-grid system unchanged.")
+              "directions -- returns an exact solution of the fine-grid system unchanged; three of the four contracts "
+              "are stated here for the regenerated kernels (A 0 = 0, restrict(0) = 0, prolongation of 0 adds nothing).")
 LEVEL_NOTE = ("Trusted: Coq kernel; the ast extraction of the helpers (py2coq/solver_helpers.py, fail-closed); "
               "Model/Hierarchy.v is a hand model of multigrid()'s loop/recursion and of MGParameters' pattern "
               "parsing, tied to the code by trace correspondence (wrapping emg3d.solver.multigrid/smoothing/"
@@ -43,7 +44,7 @@ LEVEL_NOTE = ("Trusted: Coq kernel; the ast extraction of the helpers (py2coq/so
               "theorems of C02-C04 into them is by inspection (different carrier types per level).")
 TECHNIQUE = "Coq proof (induction, lia, finite reflection) over helpers regenerated from source + trace correspondence"
 PROPS = 'Props/C05.v'
-GEN = []
+GEN = ['CoreAmat', 'CoreRestrict']     # Props/C05.v section 8b states contracts about these regenerated kernels
 TRUSTED = ["hand model of the multigrid() recursion (Model/Hierarchy.v), validated by trace correspondence"]
 ASSUMES = ["the recorded call trace (wrappers installed by the harness) is the solver's control flow"]
 
